@@ -61,7 +61,7 @@ pub fn run(ctx: &Ctx, rep: &mut Report) {
                 for seeded in [false, true] {
                     let commitments: Vec<P> = (0..count).map(|_| <P as Gx>::random_point(&mut rng)).collect();
                     let promises: Vec<Option<u64>> = (0..pc).map(|j| if j % 2 == 0 { None } else { Some(j as u64) }).collect();
-                    let seed = if seeded { Some(rand_scalar(&mut rng)) } else { None };
+                    let seed = if seeded { Some(if (count + cap + pc) % 3 == 0 { Scalar::ZERO } else { rand_scalar(&mut rng) }) } else { None };
                     let want = count.is_power_of_two() && pc == count && count <= cap && !(seeded && count > 1);
                     rep.count("statement_constructions", 1);
                     rep.distinct_extra += 1;
@@ -129,7 +129,7 @@ pub fn run(ctx: &Ctx, rep: &mut Report) {
             rep.distinct_extra += 1;
             let d = json!({"constructor": "RangeWitness::init", "blinding_counts": if shape.len() <= 4 { json!(shape) } else { json!({"openings": shape.len(), "first": shape[0], "distinct": shape.iter().collect::<std::collections::BTreeSet<_>>()}) }});
             let r = no_panic(|| {
-                let openings: Vec<CommitmentOpening> = shape.iter().enumerate().map(|(j, c)| CommitmentOpening::new(j as u64, vec![Scalar::from(7u64 + j as u64); *c])).collect();
+                let openings: Vec<CommitmentOpening> = shape.iter().enumerate().map(|(j, c)| CommitmentOpening::new(j as u64, (0..*c).map(|i| if (i + j) % 3 == 2 { Scalar::ZERO } else { Scalar::from(7u64 + j as u64) }).collect())).collect();
                 for (o, c) in openings.iter().zip(shape.iter()) {
                     let rl = o.r_len();
                     if rl.is_ok() != (*c > 0) || rl.unwrap_or(0) != *c {
